@@ -31,12 +31,14 @@ _BUILDING = "check not built yet in this round (claimed in DESIGN.md; will move 
 
 CLAIMS = {
     "C20": {
-        "engine": "E1-kani",
+        "engine": "E1-kani + E2-mirsym",
         "design_ref": "DESIGN.md §1 C20",
         "technique": "bounded model checking (Kani/CBMC) of the real accessors over fully symbolic scalars",
         "text": "For every value of each scalar Rust type (all 8 integer widths, f32, f64 incl. NaN/inf/-0, bool, "
                 "char, short strings and byte slices) the solver decides the From -> is_*/as_* matrix, "
-                "exactly-one-kind, as_name and == with primitives in both operand orders against as_* oracles.",
+                "exactly-one-kind, as_name and == with primitives in both operand orders against as_* oracles. E2 c20_number_from: "
+                "Number::from for all 8 integer widths and both float widths stores exactly the mathematical value by casts alone; "
+                "c15_eq_protocol: list comparison as a cell walk.",
         "note": "Trusted: Kani/CBMC translation of MIR, bundled std model. Strings/bytes bounded to 2 elements; "
                 "cons/vector kinds by construction of one cell.",
     },
@@ -165,7 +167,8 @@ CLAIMS["C01"] = {
             "characters, the number scanner (C05), token dispatch and the list builders read exactly those spellings "
             "back (E2). Composition: z3 decides for all 256 bytes that what the string printer emits is mapped back to "
             "the same byte by the escape semantics; lists: dot emitted iff cdr is neither () nor a pair, and the builder "
-            "accepts exactly that form.",
+            "accepts exactly that form. "
+            "c01_parse_entry_points: every from_str / from_slice / from_reader entry point (value and datum API, Parser constructors, FromStr) reaches the one parser driver once, through the reader of its kind, with the option set its name promises.",
     "note": "The round trip is decided piecewise (per function, per byte class, per loop step) and composed through the "
             "shared spec; whole nested values are not executed end to end (Kani cannot run the parser on symbolic input, "
             "measured). ryu (float to shortest decimal) is a trusted dependency; names are abstract (no identifier grammar).",
@@ -207,7 +210,8 @@ CLAIMS["C08"] = {
             "exactly under the spelling and option that governs it, independent of the name's first byte class; numbers "
             "only when the whole token is a literal (also in leading-digit mode); quote shorthands map to the four "
             "heads; lists and vectors close only at their own closer, dotted tails included; the option sets are exactly "
-            "what the public builder API produces (each with_* changes one field, getters, disjoint keyword flags, presets).",
+            "what the public builder API produces (each with_* changes one field, getters, disjoint keyword flags, presets). "
+            "c08_list_value_shape: the value list reader stores elements, dot-initial names and the dotted tail unchanged at the right place of the chain.",
     "note": "Names are abstracted to three predicates (is nil, is t, ends with ':'); the scanners below parse_token are "
             "separate claims. Non-interference between options follows from the classifier the code is checked against.",
 }
@@ -255,7 +259,8 @@ CLAIMS["C16"] = {
     "text": "E2: Cons::clone and == never make a nested call on a cdr that is a pair; the hand-written Drop returns early only "
             "when at most two cells follow (proper or dotted) and otherwise takes one cell off per loop pass; skipping an "
             "unknown serde field (deserialize_ignored_any) never walks the value. E1: for a 5-element list the iterators / "
-            "indexing / predicates complete with no recursion. Violations are confirmed natively on long lists with a 2 MiB stack.",
+            "indexing / predicates complete with no recursion. Violations are confirmed natively on long lists with a 2 MiB stack. "
+            "c16_lookup_no_recursion / c16_predicates_no_recursion: alist lookup, positional indexing and the list predicates never call themselves for the rest of the list.",
     "note": "compiler-generated drop glue, Debug and the Datum operations are outside the solver's reach; two open "
             "known findings (Datum clone/==, Debug) are re-checked natively on every run.",
 }
